@@ -153,6 +153,15 @@ def run(tier, seed):
                 if out["status"] != "ok":
                     continue
                 decide(ctx, drv, name, args, cb, out["coefs"], bound_for(name, args), {"generator": name, "args": args, "chebyshev_basis": cb})
+                if fam in ("cos", "sin", "inv") and ai % 2 == 0:
+                    # the other exit of the same request: the series OBJECT (return_coef=False) - its coefficients are Chebyshev
+                    # coefficients whatever chebyshev_basis says; ensure_bounded applies to what is returned, on every exit
+                    out2 = G.call(PL, name, args, True, False, cb, return_coef=False)
+                    ctx.count("object-exit:" + name)
+                    ctx.case([name, args, cb, "object-exit"], True, {"generator": name, "args": args, "chebyshev_basis": cb, "status": out2["status"], "exit": "return_coef=False"})
+                    if out2["status"] == "ok":
+                        decide(ctx, drv, name, args, True, out2["coefs"], bound_for(name, args),
+                               {"generator": name, "args": args, "chebyshev_basis": cb, "return_coef": False})
     # cosine / sine at EVERY early zero of the Bessel functions whose values are their series coefficients (first zeros of
     # J_0 .. J_12, second zeros of J_0 .. J_8): a coefficient in the middle of the series vanishes there while later ones
     # are of order 0.3 - whatever the series loop does with a vanishing term, the result must stay below 0.5 (1 + epsilon)
